@@ -300,10 +300,10 @@ fn run_check(ctx: &Ctx) -> i32 {
         run_group(ctx, &mut rep, &g, |_, seed, trace| scripted_case(which, seed, trace));
     }
     let groups: [(&'static str, Flavor, u64, f64); 4] = [
-        ("det-clean", Flavor::Clean, ctx.tier.pick(3000, 60_000), ctx.tier.pick(20.0, 330.0)),
-        ("det-faulty", Flavor::Faulty, ctx.tier.pick(3000, 60_000), ctx.tier.pick(20.0, 330.0)),
-        ("det-teardown", Flavor::Teardown, ctx.tier.pick(2000, 40_000), ctx.tier.pick(15.0, 200.0)),
-        ("det-blocked", Flavor::Blocked, ctx.tier.pick(2000, 40_000), ctx.tier.pick(15.0, 250.0)),
+        ("det-clean", Flavor::Clean, ctx.tier.pick(3000, 150_000), ctx.tier.pick(20.0, 330.0)),
+        ("det-faulty", Flavor::Faulty, ctx.tier.pick(3000, 150_000), ctx.tier.pick(20.0, 330.0)),
+        ("det-teardown", Flavor::Teardown, ctx.tier.pick(2000, 100_000), ctx.tier.pick(15.0, 220.0)),
+        ("det-blocked", Flavor::Blocked, ctx.tier.pick(2000, 100_000), ctx.tier.pick(15.0, 250.0)),
     ];
     for (name, flavor, cases, budget) in groups {
         let g = Group { name, cases, budget_s: budget, exhaustive: false };
@@ -354,7 +354,7 @@ fn run_check(ctx: &Ctx) -> i32 {
         let log_dir = format!("{verif}/evidence/replays/C18-sanitizer-logs");
         for (name, var) in [("tsan", "QVAIO_TSAN_BIN"), ("asan", "QVAIO_ASAN_BIN")] {
             match std::env::var(var) {
-                Ok(bin) if !bin.is_empty() => sanitizer_lane(name, &bin, ctx.tier.pick(30, 600), ctx.seed, &mut rep, &log_dir),
+                Ok(bin) if !bin.is_empty() => sanitizer_lane(name, &bin, ctx.tier.pick(30, 1500), ctx.seed, &mut rep, &log_dir),
                 _ => {
                     rep.extra.insert(format!("lane_{name}"), json!({"status": if q { "not part of the quick tier" } else { "not run: sanitizer binary not provided (run through /verif/run_c18)" }}));
                 }
@@ -434,8 +434,8 @@ fn run_check(ctx: &Ctx) -> i32 {
                 "lost-wakeup probe is sound because a spurious poll is always legal for a Future and re-registers the task's own waker".into(),
                 "hook H4 (quinn feature `verif`) only reads the waker maps".into(),
             ],
-            min_evals: ctx.tier.pick(800, 15_000),
-            min_nontrivial: ctx.tier.pick(500, 10_000),
+            min_evals: ctx.tier.pick(800, 30_000),
+            min_nontrivial: ctx.tier.pick(500, 20_000),
             required: if ctx.replay.is_some() { vec![] } else { required },
             exhaustive: false,
         },
